@@ -113,27 +113,31 @@ Targets(r) == IF r.subtree THEN {[pat |-> r.pat, sub |-> s] : s \in Subs(r.pat)}
               ELSE {[pat |-> r.pat, sub |-> ""]}
 
 \* What the mux does with the spelling of the path.  Result: [disp, ...].
-\*   "redirect": ServeMux answers 301 to the cleaned path itself;
-\*   "none":     no pattern matches (404 by the mux);
-\*   "route":    dispatched to pattern pat, with the facts about the path that
-\*               the wrappers look at.
+\*   "route": dispatched to pattern pat, with the facts about the path that
+\*            the wrappers look at; norm = TRUE when the path had to be
+\*            normalised first (dot segment, doubled slash): today's ServeMux
+\*            answers 301 to the cleaned path itself, and the statement only
+\*            asks that such a spelling does not get past the guard of the path
+\*            it normalises to, so serving it like the canonical path is
+\*            admitted as well;
+\*   "none":  no pattern matches (404 by the mux).
 Eff(r, t, sp) ==
     LET rootP  == r.pat = "/" /\ t.sub \in {"", "index.html"}
         loginP == r.pat = "/" /\ t.sub = "login.html"
         assetP == r.pat = "/" /\ t.sub = "assets/app.js"
         instP  == r.installPfx \/ (r.pat = "/" /\ t.sub = "install.html")
         assP   == r.assetsPfx \/ assetP
+        canon(n) == [disp |-> "route", norm |-> n, pat |-> r.pat, root |-> rootP, loginPage |-> loginP,
+                     asset |-> assetP, installPfx |-> instP, assetsPfx |-> assP]
     IN
-    CASE sp \in {"dotSegment", "doubleSlash"} -> [disp |-> "redirect"]
-      [] sp = "canonical" ->
-            [disp |-> "route", pat |-> r.pat, root |-> rootP, loginPage |-> loginP,
-             asset |-> assetP, installPfx |-> instP, assetsPfx |-> assP]
+    CASE sp \in {"dotSegment", "doubleSlash"} -> canon(TRUE)
+      [] sp = "canonical" -> canon(FALSE)
       [] sp = "trailingSlash" ->
-            IF r.subtree /\ t.sub = "" THEN [disp |-> "redirect"]     \* "//" is cleaned
+            IF r.subtree /\ t.sub = "" THEN canon(TRUE)     \* "//" is cleaned to "/"
             ELSE LET to == IF r.subtree THEN r.pat ELSE r.slash IN
-                 IF to = "" THEN [disp |-> "none"]
+                 IF to = "" THEN [disp |-> "none", norm |-> FALSE]
                  ELSE \* "<path>/" is no longer the root, the login page or an asset
-                      [disp |-> "route", pat |-> to, root |-> FALSE, loginPage |-> FALSE,
+                      [disp |-> "route", norm |-> FALSE, pat |-> to, root |-> FALSE, loginPage |-> FALSE,
                        asset |-> FALSE, installPfx |-> instP, assetsPfx |-> assP]
 
 \* ------------------------------------------------------------- mechanism
@@ -173,11 +177,11 @@ Run(r, e, q, i) ==
 \* classes together with the effective dispatch.
 Outcomes(r, t, q) ==
     LET e == Eff(r, t, q.spelling) IN
-    CASE e.disp = "redirect" -> {[e |-> e, by |-> r, outs |-> {"mux301"}]}
-      [] e.disp = "none"     -> {[e |-> e, by |-> r, outs |-> {"mux404"}]}
+    CASE e.disp = "none" -> {[e |-> e, by |-> r, outs |-> {"mux404"}]}
       [] OTHER -> \* served by r itself, or -- "<path>/" falling through to a subtree
                   \* pattern -- by whatever is registered for that pattern
-                  {[e |-> e, by |-> r2, outs |-> Run(r2, e, q, 1)] :
+                  {[e |-> e, by |-> r2,
+                    outs |-> Run(r2, e, q, 1) \cup (IF e.norm THEN {"mux301"} ELSE {})] :
                       r2 \in (IF e.pat = r.pat THEN {r} ELSE RoutesAt(e.pat))}
 
 \* --------------------------------------------------------- requirement
@@ -283,7 +287,8 @@ Table(r, t, m, sp) ==
         LET q == [method |-> m, ctype |-> x[1], body |-> x[2], cookie |-> x[3], basic |-> x[4],
                   spelling |-> sp]
         IN {<<x[1], x[2], CookieClass(x[3]), x[4],
-              (IF o.e.disp = "route" THEN o.e.pat ELSE o.e.disp), o.by.site, o.outs, Bad(q, o)>> :
+              (IF o.e.disp = "none" THEN "none" ELSE IF o.e.norm THEN "redirect" ELSE o.e.pat),
+              o.by.site, o.outs, Bad(q, o)>> :
                 o \in Outcomes(r, t, q)}]
 
 Emit(r, t, m, sp) ==
